@@ -13,6 +13,7 @@ from vlib.translate import tr_expand
 from vlib.tr_wrapper import tr_wrapper
 from vlib.tr_output import tr_output, tr_errors
 from vlib.syslevel import build_prod, run_script, per_call, call_line, run_many
+from vlib import sysmodel
 
 FAC = {"AUTH": syslog.LOG_AUTH, "AUTHPRIV": 10 << 3, "CRON": syslog.LOG_CRON, "DAEMON": syslog.LOG_DAEMON, "FTP": 11 << 3, "KERN": syslog.LOG_KERN,
        "LOCAL0": syslog.LOG_LOCAL0, "LOCAL1": syslog.LOG_LOCAL1, "LOCAL2": syslog.LOG_LOCAL2, "LOCAL3": syslog.LOG_LOCAL3, "LOCAL4": syslog.LOG_LOCAL4,
@@ -83,7 +84,8 @@ def check(run):
     tr_wrapper(run)
     oc = tr_output(run)
     ec = tr_errors(run)
-    ok, failed, log = run.coq_props(["Properties_C04.v"])
+    sysmodel.translate_all(run)
+    ok, failed, log = run.coq_props(["Properties_C04.v", "Properties_C04sys.v"])
     lib = build_prod(run)
     rng = run.rng
     procs = gen_procs(rng, run.tier)
@@ -197,16 +199,26 @@ def check(run):
                           {"failing_input": {"config": ini_of(p).decode(errors="replace"), "call": script[len(SINKS) + 2 + k][:300], "call_index": k},
                            "script": script, "call_index": k, "expected": {s: [x[:200] for x in v] for s, v in expected.items()},
                            "observed": {s: [x[:200] for x in v] for s, v in got.items()}, "late": late})
+    # ---- whole-run stream: generated snoopy.ini x calls, composed model (System/Compose.v) vs production wrapper
+    try:
+        sexe = sysmodel.build_model(run)
+    except CheckError as e:
+        sexe = None
+        ok, failed, log = False, failed or "Extract_system_run.v", log + "\n" + str(e)[-1500:]
+    nsys, dsys = 0, set()
+    if sexe:
+        nsys, dsys = sysmodel.whole_run_stream(run, lib, sexe, 28 if run.tier == "quick" else 400, 6, run.violation)
     if not ok and not run.violations:
         run.violation("proof:%s" % failed, "proof", "proof obligation no longer checks: %s\n%s" % (failed, log[-1500:]), {"theorem": failed, "coq_log": log[-3000:]})
     run.coverage.update({
-        "evaluations": ncmp, "distinct_nontrivial": len(distinct),
+        "evaluations": ncmp + nsys, "distinct_nontrivial": len(distinct) + len(dsys),
         "rule": "one process per (output, argument, facility, level, ident template, filter chain, message limit); per process 5-8 calls with messages of "
                 "0,1,2,...,limit-1,limit,limit+1 bytes of arbitrary non-NUL bytes (capped per sink type so that the harness-owned pipe/pty/datagram queue can hold them), "
                 "the last call being a simulated successful exec; all seven sinks drained at exec entry; distinct = (output, record expected?, size class, dropped?)",
         "samples": [{"config": ini_of(procs[0]).decode(errors="replace"), "calls": len(procs[0]["calls"])}],
         "distribution": {"processes": len(procs), "outputs": sorted(set(p["out"] for p in procs)), "dropping_chains": sum(1 for p in procs if drops(p["chain"])),
-                         "error_logging_on": sum(1 for p in procs if p["el"]), "calls_with_error_records_predicted": n_errrec},
+                         "error_logging_on": sum(1 for p in procs if p["el"]), "calls_with_error_records_predicted": n_errrec,
+                         "whole_run_calls_compared": nsys, "whole_run_distinct": len(dsys)},
         "traces_validated_against_impl": ncmp,
         "file_open": oc.get("file_open_desc"),
     })
